@@ -422,6 +422,7 @@ impl Property for C13 {
             }
         };
         let mut first = msgs.iter().find(|m| m.kind == 'E').unwrap();
+        let first_top = first;
         if kind == "builtin-rejects-argument-on-next-line" || kind == "asm-block-faulty-substitution" {
             // the outer message covers the whole two-line element; the message that names the cause is the innermost one
             while let Some(i) = first.inner.first() {
@@ -441,7 +442,14 @@ impl Property for C13 {
             ctx.render(render);
             // a class of its own: the fault sits in an asm block (which has no size while it cannot be resolved), a label
             // behind it therefore keeps a guessed address, and an EARLIER, correct line that names that label is reported first
-            let earlier = (kind.starts_with("asm-block-") || kind == "constraint-fails-three-rules-deep") && matches!(&place, Some((f, l)) if *f == want.0 && *l < want.1);
+            // (only when that first error is about ANOTHER instruction: a message tree that mentions the faulty block's own
+            // rules is the fault itself, reported in the wrong place)
+            let about_the_fault = {
+                let mut all = Vec::new();
+                first_top.flatten(&mut all);
+                all.iter().any(|m| m.descr.contains("zqemit") || m.descr.contains("zqmac"))
+            };
+            let earlier = kind == "asm-block-argument-out-of-range" && !about_the_fault && matches!(&place, Some((f, l)) if *f == want.0 && *l < want.1);
             return Verdict::fail(
                 format!("B|{}|{}", kind, if earlier { "an-earlier-line-reports-first" } else { "first-error-elsewhere" }),
                 format!("fault on {}:{} (`{}`), first error `{}` is located at {:?}", want.0, want.1, loc.text, first.descr, place),
